@@ -100,5 +100,65 @@ func TestVerifBounded(t *testing.T) {
 		}
 	}
 	rec(nil)
-	fmt.Printf("BOUNDED {\"cases\": %d, \"bound\": \"all trees of depth <= %d over tags a,b; all token strings of length <= %d over {a,b,!,&&,||,(,)} compared with go/build/constraint\"}\n", cases, depth, maxTok)
+	// (3) blanks: every token string of up to 4 tokens with each gap a space, a tab or two blanks, every
+	//     separator between the directive and the expression, and every line ending
+	var gaps func(toks []string, i int, acc string, f func(string))
+	gaps = func(toks []string, i int, acc string, f func(string)) {
+		if i == len(toks) {
+			f(acc)
+			return
+		}
+		if i == 0 {
+			gaps(toks, 1, toks[0], f)
+			return
+		}
+		for _, g := range []string{" ", "\t", " \t"} {
+			gaps(toks, i+1, acc+g+toks[i], f)
+		}
+	}
+	var rec2 func(prefix []string)
+	rec2 = func(prefix []string) {
+		if len(prefix) > 0 {
+			gaps(prefix, 0, "", func(text string) {
+				for _, sep := range []string{" ", "\t", "  "} {
+					for _, end := range []string{"", " ", "\t", "\n"} {
+						cases++
+						wa, werr := Parse("#wa:build" + sep + text + end)
+						ref, rerr := constraint.Parse("//go:build" + sep + text + end)
+						if (werr == nil) != (rerr == nil) {
+							t.Fatalf("COUNTEREXAMPLE constraint line %q: wa parser error = %v, reference parser error = %v", "#wa:build"+sep+text+end, werr, rerr)
+						}
+						if werr == nil && zzTable(wa) != zzRefTable(ref) {
+							t.Fatalf("COUNTEREXAMPLE constraint line %q: wa truth table %s, reference %s", "#wa:build"+sep+text+end, zzTable(wa), zzRefTable(ref))
+						}
+					}
+				}
+			})
+		}
+		if len(prefix) == 4 {
+			return
+		}
+		for _, tk := range toks {
+			rec2(append(prefix, tk))
+		}
+	}
+	rec2(nil)
+	// (4) which lines are constraint lines at all: IsWaBuild against the reference IsGoBuild on the analogous
+	//     line, and against Parse (a line Parse accepts is a constraint line; a constraint line that Parse
+	//     rejects is malformed, never silently "not a constraint")
+	for _, rest := range []string{"", " ", "\t", " a", "\ta", "  a", "a", "x a", ":a", " a\n", "\ta\n", "\n", " a\nb", "\na", " !a", "\t!a", " (a)", " a &&", "\t&&"} {
+		for _, pre := range []string{"", " ", "\t"} {
+			cases++
+			line := pre + "#wa:build" + rest
+			got := IsWaBuild(line)
+			want := constraint.IsGoBuild(pre + "//go:build" + rest)
+			if got != want {
+				t.Fatalf("COUNTEREXAMPLE IsWaBuild(%q) = %v, reference IsGoBuild on the analogous line = %v", line, got, want)
+			}
+			if _, err := Parse(line); err == nil && !got {
+				t.Fatalf("COUNTEREXAMPLE Parse(%q) succeeds but IsWaBuild says it is not a constraint line", line)
+			}
+		}
+	}
+	fmt.Printf("BOUNDED {\"cases\": %d, \"bound\": \"all trees of depth <= %d over tags a,b; all token strings of length <= %d over {a,b,!,&&,||,(,)} compared with go/build/constraint; token strings of length <= 4 with every gap in {space, tab, space+tab}, 3 directive separators and 4 line endings; IsWaBuild against IsGoBuild and Parse on 57 directive lines\"}\n", cases, depth, maxTok)
 }
